@@ -1000,6 +1000,16 @@ def arange(*args):
     return ndarray.fresh(r, (len(r),), "i8")
 
 
+def vdot(a, b):
+    a, b = asarray(a), asarray(b)
+    return (a.reshape(-1) * b.reshape(-1)).sum()
+
+
+def size(a, axis=None):
+    a = asarray(a)
+    return a.size if axis is None else a.shape[axis]
+
+
 def tril_indices(n, k=0, m=None):
     n = int(n)
     m = n if m is None else int(m)
